@@ -333,6 +333,16 @@ class Judge:
         slow, recorded, not a hang; anything steeper, or a halved case that is itself above the limit, is a violation"""
         notes = []
         for stream, build, line, ms in self.slow:
+            # the measurement above the limit was taken with all cores busy: the request is measured once more on its own and the
+            # smaller CPU time counts (the limit itself stays)
+            o1 = vlib.run_lines(vlib.build_harness(build), [line], nproc=1, timeout=LIMIT_MS[build] // 1000 * 3)[0]
+            d1 = dict(x.split("=", 1) for x in o1.split()[1:] if "=" in x) if o1.startswith("ok ") else {}
+            ms1 = int(d1.get("cpu", d1.get("ms", 10 ** 9)))
+            if ms1 <= LIMIT_MS[build]:
+                notes.append({"build": build, "request": line[:400], "cpu_ms_under_load": ms, "cpu_ms_alone": ms1})
+                print(f"# NOTE above the limit only under load ({build}): {ms} ms, {ms1} ms alone: {line[:200]}")
+                continue
+            ms = min(ms, ms1)
             t = line.split()
             t[10] = ",".join((f"{x.split('*')[0]}*{max(1, int(x.split('*')[1]) // 2)}" if "*" in x else x) for x in t[10].split(","))
             half = " ".join(t)
